@@ -126,6 +126,17 @@ def deepconst(run, E, rule, entries, lazy_enabled=True, extra_cuts=()):
     if E.unknown_structs:
         pass
     sw = shared_writes(E, reach)
+    hist = {}
+    nw = 0
+    for fname in reach:
+        if fname in E.ir.funcs:
+            for ins, p, kind in E.writes_of(fname):
+                nw += 1
+                for t in E.bind_args(fname, E.owner(fname, p), reach):
+                    k = t.split(':')[0]
+                    hist[k] = hist.get(k, 0) + 1
+    run.analysed['writes_classified'] = nw
+    run.analysed['owner_histogram'] = hist
     if E.unknown_structs:
         raise AnalysisBroken('struct types not classified SHARED / PER-CALL / ambiguous: %s' % sorted(E.unknown_structs))
     nwrites = 0
